@@ -278,6 +278,10 @@ def run(chk: Check):
     c09.rule_k1(chk, constfold.fold_tokenize(), False)
     c09.rule_k6(chk, constfold.fold_tokenize(), ix, False)
     c06.rule_p3(chk, ix, ir)
+    from .c08 import rule_l3
+    from .c03 import rule_t1
+    rule_l3(chk, ix)   # every character the scanner passes over is in a token (raw captures are rebuilt from tokens)
+    rule_t1(chk, ix)
     chk.floor("M1-must-append", 6)
     chk.floor("M2-delimiter-tables", 4)
     chk.floor("M3-flag-typestate", 12)
